@@ -1346,8 +1346,10 @@ class Mesh:
         """
         if isinstance(nodes, tuple):
             # the vertex at the given point, up to a millionth of the shortest
-            # edge (an absolute tolerance depends on the unit of length)
-            tol = 1e-6 * self._shortest_edge()
+            # edge (an absolute tolerance depends on the unit of length) but
+            # not below the round-off of the coordinates
+            tol = max(1e-6 * self._shortest_edge(),
+                      8 * np.finfo(np.float64).eps * np.abs(self.p).max())
             return self.normalize_nodes(
                 lambda x: np.linalg.norm(x - np.array(list(nodes))[:, None],
                                          axis=0) < tol
